@@ -346,7 +346,20 @@ func c02Numbers(c *eng.Ctx, d *dbInfo, k *kvAnalysis) {
 			// an early success: must be "latest version exists and equals value", returning that number
 			okExists, okEqual := false, false
 			var key ssa.Value
-			for _, cond := range eng.FactsAt(r) {
+			// (the test may sit in a small predicate of the secret: FactsX
+			// adds what its answer implies, values compared through OriginX)
+			convX := func(v ssa.Value) ssa.Value {
+				for i := 0; i < 6; i++ {
+					w := eng.OriginConv(eng.OriginX(v))
+					if w == v {
+						break
+					}
+					v = w
+				}
+				return v
+			}
+			isValueP := func(v ssa.Value) bool { return convX(v) == convX(valueP) }
+			for _, cond := range eng.FactsX(r) {
 				if src, truth, isCO := cond.CommaOk(); isCO && truth {
 					if lk, isLk := src.(*ssa.Lookup); isLk {
 						if fr, _, isF := eng.LoadedField(lk.X); isF && fr.Is("db", "secret", "Versions") {
@@ -359,7 +372,7 @@ func c02Numbers(c *eng.Ctx, d *dbInfo, k *kvAnalysis) {
 				}
 				if op, x, y, isCmp := cond.Cmp(); isCmp && op == token.EQL && valueP != nil {
 					for _, pr := range [][2]ssa.Value{{x, y}, {y, x}} {
-						if eng.OriginConv(pr[1]) == ssa.Value(valueP) {
+						if isValueP(pr[1]) {
 							if ex, isEx := eng.Origin(pr[0]).(*ssa.Extract); isEx && ex.Index == 0 {
 								if _, isLk := ex.Tuple.(*ssa.Lookup); isLk {
 									okEqual = true
@@ -370,6 +383,13 @@ func c02Numbers(c *eng.Ctx, d *dbInfo, k *kvAnalysis) {
 				}
 			}
 			okRet := key != nil && c.P.MemSame(rv[0], key)
+			if key != nil && !okRet {
+				// the predicate read the counter in its own frame: same field of
+				// the same secret, and no write precedes this return (checked above)
+				fa, oa, isA := eng.LoadedField(rv[0])
+				fb, ob, isB := eng.LoadedField(key)
+				okRet = isA && isB && fa.Is("db", "secret", "LatestVersion") && fb.Is("db", "secret", "LatestVersion") && eng.SameX(oa, ob)
+			}
 			c.Check(okExists && okEqual && okRet, "R-C02-3", f, r.Pos(), "early success "+eng.InstrStr(r), "without storing, put may only return the most recently assigned number, and only where that version still exists and holds exactly the bytes put",
 				"exists-check="+boolStr(okExists)+" bytes-equal-check="+boolStr(okEqual)+" returns-that-number="+boolStr(okRet)+"; holding: "+eng.FactsString(r))
 		}
